@@ -116,6 +116,7 @@ typedef struct WBXMLTreeClbCtx_s {
     WBXMLTree     *tree;          /**< The WBXML Tree we are constructing */
     WBXMLTreeNode *current;       /**< Current Tree Node */
     WBXMLError     error;         /**< Error while parsing Document */
+    WB_ULONG       embedded_depth; /**< For WBXML Clb: nesting depth of embedded documents (0 for a top-level document) */
     /* For XML Clb */
     WB_ULONG       skip_lvl;      /**< Used to skip a whole XML node (used for SyncML) */
     WB_LONG        skip_start;    /**< Starting Skipping position in XML Document (used for SyncML) */
@@ -160,6 +161,23 @@ WBXML_DECLARE(WBXMLError) wbxml_tree_from_wbxml(WB_UTINY *wbxml,
                                                 WBXMLLanguage lang,
                                                 WBXMLCharsetMIBEnum charset,
                                                 WBXMLTree **tree);
+
+/**
+ * @brief Parse a WBXML document embedded in another one (internal use, see wbxml_tree_clb_wbxml.c)
+ * @param wbxml          [in]  The WBXML document to parse
+ * @param wbxml_len      [in]  The WBXML document length
+ * @param lang           [in]  Can be used to force parsing of a given Language
+ * @param charset        [in]  Charset to use if the document does not specify one
+ * @param embedded_depth [in]  Nesting depth of this document (0 for a top-level document)
+ * @param tree           [out] The resulting WBXML Tree
+ * @result Return WBXML_OK if no error, an error code otherwise
+ */
+WBXML_DECLARE(WBXMLError) wbxml_tree_from_wbxml_embedded(WB_UTINY *wbxml,
+                                                         WB_ULONG wbxml_len,
+                                                         WBXMLLanguage lang,
+                                                         WBXMLCharsetMIBEnum charset,
+                                                         WB_ULONG embedded_depth,
+                                                         WBXMLTree **tree);
 
 /**
  * @brief Convert a WBXML Tree to a WBXML document
